@@ -9,7 +9,7 @@
    doubles are IEEE-754 binary64 bit patterns (Z, 0 <= b < 2^64).
    No proofs here (NumberProofs.v). *)
 From Coq Require Import ZArith List Bool.
-From GD Require Import C07.Token.
+From GD Require Import C07.Token Gen.Formats.
 Import ListNotations.
 Local Open Scope Z_scope.
 
@@ -305,16 +305,21 @@ Definition at_term (semi : bool) (rest : bstring) : bool :=
   | c :: _ => semi && (c =? 59)
   end.
 
-(* one component: strtoll, then strtoull on ERANGE, then strtod *)
-Definition tok_part (base0 semi : bool) (s : bstring) : option (npart * bstring) :=
+(* one component: strtoll, then strtoull on ERANGE, then strtod.
+   uf = a strtod result flagged ERANGE is accepted when it is small (underflow)
+   zf = an integer zero is left to strtod when a floating value is wanted
+   (both rules are absent from the pinned source; the translator records in
+   Gen/Formats.v which of them the current _GD_TokToNum has)
+   want = the caller passed a pointer for this part as a double (re / im) *)
+Definition tok_part_gen (uf zf : bool) (base0 semi want : bool) (s : bstring) : option (npart * bstring) :=
   let '(neg, mag, rest) := strto_int base0 s in
   let v := if neg then - mag else mag in
   let ll_erange := negb ((- two63 <=? v) && (v <? two63)) in
-  if negb ll_erange && at_term semi rest then Some (PInt v, rest)
+  if negb ll_erange && at_term semi rest && negb (zf && want && (v =? 0)) then Some (PInt v, rest)
   else
     let try_d :=
       let '(b, rest_d, er) := strtod_model s in
-      if negb er && at_term semi rest_d then Some (PDbl b, rest_d) else None in
+      if (negb er || (uf && negb (dbl_is_inf b))) && at_term semi rest_d then Some (PDbl b, rest_d) else None in
     if ll_erange then
       if (mag <? two64) && at_term semi rest then Some (PUInt (if neg then (two64 - mag) mod two64 else mag), rest)
       else try_d
@@ -327,21 +332,25 @@ Definition part_is_zero (p : npart) : bool :=
   | PDbl b => dbl_is_zero b
   end.
 
-Definition tok_to_num (base0 want_im : bool) (tok : bstring) : numres :=
-  match tok_part base0 true tok with
+Definition tok_to_num_gen (uf zf : bool) (base0 want_re want_im : bool) (tok : bstring) : numres :=
+  match tok_part_gen uf zf base0 true want_re tok with
   | None => NotNum
   | Some (re, rest) =>
       match rest with
       | [] => Num re None
       | _ :: itok =>
-          match tok_part base0 false itok with
+          match tok_part_gen uf zf base0 false want_im itok with
           | None => NotNum
           | Some (im, _) =>
-              if part_is_zero im then Num re None
+              if part_is_zero im then Num re (if zf && want_im then Some im else None)   (* zf: the zero keeps its sign *)
               else if want_im then Num re (Some im) else BadNum
           end
       end
   end.
+
+(* the reader of the current source *)
+Definition tok_part := tok_part_gen tok_accepts_underflow tok_zero_via_strtod.
+Definition tok_to_num := tok_to_num_gen tok_accepts_underflow tok_zero_via_strtod.
 
 Definition part_dbl (p : npart) : Z :=
   match p with
@@ -358,14 +367,15 @@ Definition base0_of (pedantic : bool) (standards : Z) : bool := negb pedantic ||
 
 (* a token passes as a number (the writer's "<0>" test and gd_add's ambiguity test) *)
 Definition looks_numeric (base0 : bool) (tok : bstring) : bool :=
-  match tok_to_num base0 false tok with
+  match tok_to_num base0 false false tok with
   | NotNum => false
   | _ => true
   end.
 
-(* does strtod(printf("%.Pg", x)) give x back (and no ERANGE)? *)
-Definition stableb (P : Z) (b : Z) : bool :=
-  match tok_to_num true false (print_g P b) with
+(* does _GD_TokToNum(printf("%.Pg", x)) asked for a double give x back? *)
+Definition stableb_gen (uf zf : bool) (P : Z) (b : Z) : bool :=
+  match tok_to_num_gen uf zf true true false (print_g P b) with
   | Num re None => part_dbl re =? b
   | _ => false
   end.
+Definition stableb := stableb_gen tok_accepts_underflow tok_zero_via_strtod.
